@@ -701,17 +701,22 @@ Proof. vm_compute. repeat split. Qed.
 (* ---- register_backend_method (leading digit 10): histories of selections, registrations and calls of ONE dispatched
    name (tensorly.backend: digamma, tensorly.tenalg: higher_order_moment).  Classes = backend names: the stock classes
    define the name natively (implementation 0), the harness classes (1, 2 / 2, 3) are subclasses of stock class 0 and
-   inherit, Obj 4 is an instance of a harness subclass (class 6) that provides NOTHING under the name.
+   inherit, Obj 4 is an instance of a harness subclass (class 6) that provides NOTHING under the name, Obj 5 an instance of a
+   subclass (class 7) of the first harness class (two levels below the stock class).
    digits: tenalg, nthreads, main_holds, nsteps (two digits), then per step kind (0 set, 1 enter, 2 exit, 3 register,
    4 call), thread, a, b, c, outcome kind, o1, o2:  register: a = implementation number; call: outcome kind 2 = executed,
    o1 = name code get_backend() returned in the calling thread, o2 = implementation that ran; 4 = AttributeError *)
+(* class 7 (Obj 5 is its instance) is a subclass of the FIRST harness class (1 / 2), itself a subclass of stock class 0: a
+   chain of depth 2; cdepth = 3 bounds every chain of the harness *)
 Definition hcfg_of (tenalg : bool) : hcfg :=
-  {| cparent := fun cl => if (if tenalg then (2 <=? cl) && (cl <=? 3) else (1 <=? cl) && (cl <=? 2)) || (cl =? 6)
-                          then Some 0 else None |}.
+  {| cparent := fun cl => if cl =? 7 then Some (if tenalg then 2 else 1)
+                          else if (if tenalg then (2 <=? cl) && (cl <=? 3) else (1 <=? cl) && (cl <=? 2)) || (cl =? 6)
+                          then Some 0 else None;
+     cdepth := 3 |}.
 Definition mt0 (tenalg : bool) : mtab :=
   fun cl _ => if cl =? 6 then MMissing else match cparent (hcfg_of tenalg) cl with Some _ => MInherit | None => MHas 0 end.
 Definition cfg_reg (tenalg : bool) : cfg :=
-  {| known := known (cfg_of tenalg); cname := fun k => if k =? 4 then 6 else cname (cfg_of tenalg) k |}.
+  {| known := known (cfg_of tenalg); cname := fun k => if k =? 4 then 6 else if k =? 5 then 7 else cname (cfg_of tenalg) k |}.
 
 Definition dec_rop (k t a b c : nat) : rop :=
   match k with
@@ -767,8 +772,14 @@ Example reg_example :
   let good := [0;3;1; 0;9;
                3;1;1;0;0; 1;0;0;   0;2;1;0;1; 0;0;0;   4;2;0;0;0; 2;1;1;   3;2;2;0;0; 1;0;0;   4;2;0;0;0; 2;1;2;
                4;1;0;0;0; 2;0;1;   0;1;1;4;1; 0;0;0;   4;1;0;0;0; 4;0;0;   4;0;0;0;0; 2;0;1] in
+  (* thread 1 (stock numpy) registers 1; thread 2 on Obj 5 (class 7 -> 1 -> 0) gets it through TWO levels; a registration on
+     the middle class (thread 1 on Obj 0, class 1) takes over for Obj 5, the stock class keeps 1 *)
+  let deep := [0;3;1; 0;7;
+               3;1;1;0;0; 1;0;0;   0;2;1;5;1; 0;0;0;   4;2;0;0;0; 2;7;1;   0;1;1;0;1; 0;0;0;   3;1;2;0;0; 1;0;0;
+               4;2;0;0;0; 2;7;2;   4;0;0;0;0; 2;0;1] in
   agree_reg good = true /\ agree_reg (firstn (length good - 1) good ++ [2]) = false /\
-  agree_reg (firstn 61 good ++ [2;6;0] ++ skipn 64 good) = false.
+  agree_reg (firstn 61 good ++ [2;6;0] ++ skipn 64 good) = false /\
+  agree_reg deep = true /\ agree_reg (firstn 28 deep ++ [0] ++ skipn 29 deep) = false.
 Proof. vm_compute. repeat split. Qed.
 
 (* ---- dispatch histories over ALL dispatched names (leading digit 11): the name tables of the manager (_functions,
@@ -890,7 +901,8 @@ Proof. vm_compute. repeat split. Qed.
    that (kind 0) runs by itself - it may raise at `backend.backend_name` of the nameless instance Obj 20, leaving its
    partial effect behind (exec_nl) - or (kind 1) is interrupted by an exception the harness raises from a trace function
    at some source line inside set_backend / backend_context: the observed state must be that of SOME sub-sequence of the
-   call's acts (every prefix = abort is one; all acts = the interruption came too late), for an entry also the state after entry + exit (the
+   call's acts (every prefix = abort is one; all acts and the call's own answer = the interruption came too late; all acts
+   and an exception = it came after the last write, bytecode granularity), for an entry also the state after entry + exit (the
    interruption fell inside the try block, the finally clause ran); then what EVERY thread sees (get_backend() - 62 =
    it raised AttributeError - and the identity of current_backend()), then atomic follow-up calls under exec_nl *)
 Definition aseen_ok (tenalg : bool) (s : st) (t : tid) (x : seen) : bool :=
@@ -946,7 +958,7 @@ Definition agree_a (c : acase) : bool :=
                    end in
       existsb (fun cand : bst * bool =>
                  let (b, completed) := cand in
-                 obs_eqb ob (if completed then answer b o else raise_obs o) &&
+                 (obs_eqb ob (raise_obs o) || (completed && obs_eqb ob (answer b o))) &&
                  all_aseen tenalg (to_st b) ths xs && acheck nf tenalg ths b post) cands
   end.
 
